@@ -66,6 +66,8 @@ def main(modname, tier, replay, tag="gasan", tags=None):
     mod = importlib.import_module(modname)
     run = verdict.Run(mod.PROP, tier, mod.LEVEL, replay_of=replay)
     S = optrun.Summary()
+    if tags is None and tier == "thorough" and not replay:
+        tags = [tag, "casan"]    # the thorough tier repeats a share of the cases under clang ASan+UBSan
     tags = tags or [tag]
     for tg in tags:
         optrun.optdrv(tg)  # build once, before forking
